@@ -1,6 +1,54 @@
 """Per-property configuration of ./check: which harness driver, comparator and assumptions."""
 
+
+def _kv(line):
+    d = {}
+    for x in line.split(" "):
+        i = x.find("=")
+        if i > 0:
+            d[x[:i]] = x[i + 1:]
+    return d
+
+
+def _strip_zero_blocks(hexs):
+    if hexs == "-":
+        return ""
+    while len(hexs) >= 64 and hexs[-64:] == "0" * 64:
+        hexs = hexs[:-64]
+    return hexs
+
+
+def cmp_c01(case, impl, model):
+    """C01 pins: the decoded tree (rt=) and the plaintext modulo the number of trailing all-zero blocks.
+    The exact ciphertext is compared only when the padding is minimal (it then has to be the model's)."""
+    if impl == model:
+        return None
+    ip, mp = impl.split(" | "), model.split(" | ")
+    if len(ip) != len(mp):
+        return "different number of frames"
+    for a, b in zip(ip, mp):
+        ia, ib = a.find(" rt="), b.find(" rt=")
+        if ia < 0 or ib < 0 or a[ia:] != b[ib:]:
+            return "decoded messages differ"
+        ka, kb = _kv(a[:ia]), _kv(b[:ib])
+        if "p" in ka and _strip_zero_blocks(ka["p"]) != _strip_zero_blocks(kb.get("p", "")):
+            return "plaintext frames differ (beyond trailing zero blocks)"
+        if "p" in ka and len(ka["p"]) == len(kb.get("p", "")) and ka.get("c") != kb.get("c"):
+            return "ciphertexts differ for the same plaintext"
+        if "p" not in ka and ka.get("c") != kb.get("c"):
+            return "ciphertexts of a stream frame differ"
+    return None
+
+
+CODEC_ASSUME = ["github.com/azihsoyn/rijndael256 + crypto/cipher CBC compute the Gallina Rijndael-256/CBC (compared byte for byte on every W/R case of this run)",
+                "hash/crc32.ChecksumIEEE computes the Gallina bit-serial CRC-32 (compared on this run)",
+                "encoding/binary little-endian layout, time.Unix normalisation as modelled"]
+
 PROPS = {
+    "C01": {"exec": "C01", "compare": cmp_c01, "assumptions": CODEC_ASSUME},
+    "C02": {"exec": "C02", "assumptions": CODEC_ASSUME + ["PARTIAL: absence of Go panics and wall-clock promptness are established by the correspondence run only (a recovered panic or a 20 s timeout is a mismatch)"]},
+    "C03": {"exec": "C03", "assumptions": CODEC_ASSUME},
+    "C04": {"exec": "C04", "assumptions": CODEC_ASSUME},
     "C14": {
         "exec": "C14",
         "exhaustive": True,
